@@ -462,8 +462,121 @@ def sched_worker(args):
     return res
 
 
+# ---- two scripts alive at once: each machine's clock comes from the real binding -------------------
+def two_clock_worker(args):
+    """clock.configure() as light_module calls it, then two clocks obtained the way Machine obtains its own
+    (provide(i_lib.Clock)), used in an interleaved order (a queued script next to a background script):
+    each keeps its own time line."""
+    ops = args['ops']
+    res = report.WorkResult('two clocks %s' % ' '.join('%s:%s' % o for o in ops))
+    world.start_function_trace()
+    res.sites.add('own-time-line')
+
+    def harness(ctx):
+        vt, tick, saved = install(ctx)
+        try:
+            world.configure(())
+            clock_mod.threading = type('T', (), {'Thread': NoThreads.Thread, 'Event': staticmethod(lambda: Ev(vt, tick))})
+            clock_mod.configure()                      # the production binding
+            clocks = {'A': injection.provide(i_lib.Clock), 'B': injection.provide(i_lib.Clock)}
+            origin, due, obs = {}, {}, []
+            for i, (who, op) in enumerate(ops):
+                c = clocks[who]
+                vt.advance('work', 0, 100)
+                if op == 'start':
+                    c.start()
+                    origin[who], due[who] = vt.now, 0
+                elif op == 'stop':
+                    c.stop()
+                else:
+                    d = ctx.real('delay_%d' % i, 0, 100)
+                    due[who] = due[who] + d
+                    c._event.waits = 0
+                    t_call = vt.now
+                    c.pause_for(d)
+                    obs.append((who, i, t_call, vt.now, origin[who], due[who]))
+            return obs, tick
+        finally:
+            restore(saved)
+    for ctx, out in symx.explore(harness, max_paths=args['max_paths'], timeout_ms=5000, stats=res.stats, deadline=time.time() + args['budget_s']):
+        if isinstance(out, symx.Abort):
+            res.out_of_bound += 1
+            continue
+        obs, tick = out
+        res.nontrivial += 1
+        T = symx.term
+        cons = []
+        for who, i, t_call, t_ret, origin, due in obs:
+            target = T(origin) + T(due)
+            cons.append(('clock %s, statement %d: the delay ends before its own start + sum of its own delays' % (who, i + 1), T(t_ret) >= target))
+            cons.append(('clock %s, statement %d: the delay ends more than one tick after it was due' % (who, i + 1),
+                         z3.Implies(T(t_call) < target, T(t_ret) <= target + T(tick))))
+            cons.append(('clock %s, statement %d: late already but the clock waited' % (who, i + 1), z3.Implies(T(t_call) >= target, T(t_ret) == T(t_call))))
+        res.reached.add('own-time-line')
+        verdict, model = ctx.prove(z3.And(*[f for _, f in cons]) if cons else True)
+        if verdict == 'unsat':
+            continue
+        if verdict == 'unknown':
+            res.inconclusive.append(res.label)
+            continue
+        what = next(d for d, f in cons if not z3.is_true(model.eval(f, model_completion=True)))
+        mv = {k: float(v) for k, v in ctx.model_values(model).items() if not isinstance(v, bool)}
+        # replay: the same interleaving on plain numbers
+        msg = replay_two(ops, mv)
+        res.violation('two-clocks|%s' % scripth._sig_of(what), '%s\n  order of use %s, times %s\n  replay: %s' % (what, ops, mv, msg),
+                      inputs={'ops': ops, 'values': mv}, replayed=msg is not None)
+        break
+    if not symx.explore.last_exhaustive:
+        res.exhaustive = False
+    res.sample({'order_of_use': ops})
+    res.functions = world.functions_seen()
+    return res
+
+
+def replay_two(ops, mv):
+    saved_ctx = symx.Ctx.cur
+    symx.Ctx.cur = None
+    ct = CTime(mv)
+    tick = mv.get('tick_len', 1.0)
+    saved = (clock_mod.time, clock_mod.threading, clock_mod.datetime)
+    clock_mod.time, clock_mod.datetime = ct, DT
+    clock_mod.threading = type('T', (), {'Thread': NoThreads.Thread, 'Event': staticmethod(lambda: Ev(ct, tick))})
+    try:
+        world.configure(())
+        clock_mod.configure()
+        clocks = {'A': injection.provide(i_lib.Clock), 'B': injection.provide(i_lib.Clock)}
+        origin, due = {}, {}
+        for i, (who, op) in enumerate(ops):
+            c = clocks[who]
+            ct.advance('work')
+            if op == 'start':
+                c.start()
+                origin[who], due[who] = ct.now, 0.0
+            elif op == 'stop':
+                c.stop()
+            else:
+                d = mv.get('delay_%d' % i, 0.0)
+                due[who] += d
+                c._event.waits = 0
+                t_call = ct.now
+                try:
+                    c.pause_for(d)
+                except symx.Abort:
+                    return None
+                if ct.now < origin[who] + due[who] - 1e-9:
+                    return 'clock %s: delay returned at %r, due %r' % (who, ct.now, origin[who] + due[who])
+                if t_call < origin[who] + due[who] and ct.now > origin[who] + due[who] + tick + 1e-9:
+                    return 'clock %s: delay returned %r after it was due' % (who, ct.now - origin[who] - due[who])
+                if t_call >= origin[who] + due[who] and ct.now > t_call + 1e-9:
+                    return 'clock %s: late already but waited %r' % (who, ct.now - t_call)
+        return None
+    finally:
+        clock_mod.time, clock_mod.threading, clock_mod.datetime = saved
+        symx.Ctx.cur = saved_ctx
+
+
 def dispatch(args):
-    return {'clock': clock_worker, 'vm': vm_worker, 'sched': sched_worker}[args['kind']](args)
+    return {'clock': clock_worker, 'vm': vm_worker, 'sched': sched_worker, 'two': two_clock_worker}[args['kind']](args)
 
 
 def plans(maxlen):
@@ -498,6 +611,12 @@ def run(tier, seed):
         for tick in (0.25, 0.1, 1.5):
             items.append({'kind': 'sched', 'delays': delays, 'works': works, 'tick': tick, 'preempt': 2 if q else 3,
                           'max_paths': 1500 if q else 60000, 'budget_s': 20 if q else 300})
+    A, B = 'A', 'B'
+    for ops in ([(A, 'start'), (A, 'd'), (B, 'start'), (B, 'd'), (A, 'd')],
+                [(A, 'start'), (B, 'start'), (A, 'd'), (B, 'stop'), (A, 'd')],
+                [(A, 'start'), (A, 'd'), (B, 'start'), (A, 'd'), (B, 'd'), (B, 'stop'), (A, 'd')],
+                [(B, 'start'), (B, 'd'), (B, 'stop'), (A, 'start'), (A, 'd'), (A, 'd')]):
+        items.append({'kind': 'two', 'ops': ops, 'max_paths': 1500 if q else 30000, 'budget_s': 20 if q else 200})
     results, skipped = report.run_pool(dispatch, items, budget_s=common.tier_budget(tier, 70, 900))
     return report.finish(
         PROP, tier, seed, 'exploration', results, skipped,
@@ -505,7 +624,8 @@ def run(tier, seed):
              'symbolic start instant, delay values, work before each statement, tick length (up to 10 s) and tick phase (tick intervals arbitrary in (0, tick]; Event.wait(timeout) returns False when no tick falls inside the time-out); '
              'or one script on the real VM bound to the real Clock with symbolic time registers and symbolic transmission times. z3 shows on every path: never early, '
              'within one tick when not late, immediate return with no extra delay when late, zero delay never blocks, time line restarts after a time-of-day wait',
-        assumptions=['time.time, threading and datetime inside bardolph.lib.clock are stubs: the clock thread is represented by Event.wait returning at the next tick instant',
+        assumptions=['two-clocks part: clock.configure() (the production binding) and provide(i_lib.Clock) as Machine.__init__ does; the two clocks are used from one thread in a fixed interleaved order',
+                     'time.time, threading and datetime inside bardolph.lib.clock are stubs: the clock thread is represented by Event.wait returning at the next tick instant',
                      'interleaving part: the real clock thread runs under the deterministic scheduler (discrete-event virtual time, <= 2/3 preemptions) with concrete delays',
                      'at most %d ticks per delay (longer waits are out of bound and counted)' % TICK_BOUND,
                      'a time-of-day wait observes its minute after 0..3 polls (choice variable)'],
